@@ -353,6 +353,11 @@ pub struct SpatialTrackDistances {
 impl SpatialTrackDistances {
 	#[must_use]
 	pub(crate) fn relative_distance(&self, distance: f32) -> f32 {
+		// an empty or inverted range has no slope: the sound is at full
+		// volume closer than the max distance and silent from there on
+		if self.max_distance <= self.min_distance {
+			return if distance >= self.max_distance { 1.0 } else { 0.0 };
+		}
 		let distance = distance.clamp(self.min_distance, self.max_distance);
 		(distance - self.min_distance) / (self.max_distance - self.min_distance)
 	}
